@@ -474,6 +474,20 @@ func retainedEvents(full bool) []event {
 			evs = append(evs, event{fmt.Sprintf("P:PUBLISH(%s,no-retain,empty)", t), func(h *hist) { h.publish("P", t, "", 0, false) }})
 		}
 	}
+	// republishing byte-identical payloads at a different QoS must still replace the retained message
+	for _, q := range []packet.QOS{0, 2} {
+		q := q
+		evs = append(evs, event{fmt.Sprintf("P:PUBLISH(a,q%d,retain,same-payload)", q), func(h *hist) { h.publish("P", "a", "same", q, true) }})
+	}
+	evs = append(evs, event{"W:dies-with-will(a,q1,retain,same-payload)", func(h *hist) {
+		h.connect("W", true, &packet.Message{Topic: "a", Payload: []byte("same"), QOS: 1, Retain: true})
+		h.w.Run(h.all()...)
+		h.cl["W"].Drop()
+		h.m.online["W"] = false
+		want := h.m.publish("a", "same", 1, true)
+		h.w.Run(h.all()...)
+		h.verify(want, "will")
+	}})
 	for _, q := range qosAll {
 		q := q
 		// a client with a retained will dies: the will counts as a publish
